@@ -9,6 +9,8 @@ use refmodel::picture::{render, tokenize, Ty, ALL_TYPES};
 use refmodel::ranges as rg;
 use sqldatetime::{Date, IntervalDT, IntervalYM, OracleDate, Time, Timestamp};
 
+thread_local! { static HEAVY_ALL: std::cell::Cell<bool> = std::cell::Cell::new(false); }
+
 fn layout(ty: Ty) -> &'static str {
     match ty {
         Ty::Date => "YYYY-MM-DD",
@@ -55,6 +57,30 @@ fn json_decode(ty: Ty, s: &str) -> Result<i64, String> {
     })
 }
 
+/// The same document through serde_json's other entry points: an owned `Value` (transient
+/// string), a reader (no borrowing possible), and an escaped spelling of the same string.
+fn json_decode_other_paths(ty: Ty, doc: &str) -> Result<[i64; 3], String> {
+    let val: serde_json::Value = serde_json::from_str(doc).map_err(|e| e.to_string())?;
+    let escaped = doc.replacen('-', "\\u002d", 1).replacen(':', "\\u003a", 1);
+    macro_rules! go {
+        ($t:ty, $get:expr) => {{
+            let a: $t = serde_json::from_value(val.clone()).map_err(|e| format!("from_value: {e}"))?;
+            let b: $t = serde_json::from_reader(doc.as_bytes()).map_err(|e| format!("from_reader: {e}"))?;
+            let c: $t = serde_json::from_str(&escaped).map_err(|e| format!("from_str(escaped {escaped}): {e}"))?;
+            let g = $get;
+            [g(a), g(b), g(c)]
+        }};
+    }
+    Ok(match ty {
+        Ty::Date => go!(Date, |x: Date| x.days() as i64),
+        Ty::Time => go!(Time, |x: Time| x.usecs()),
+        Ty::Timestamp => go!(Timestamp, |x: Timestamp| x.usecs()),
+        Ty::IntervalYM => go!(IntervalYM, |x: IntervalYM| x.months() as i64),
+        Ty::IntervalDT => go!(IntervalDT, |x: IntervalDT| x.usecs()),
+        Ty::OracleDate => go!(OracleDate, |x: OracleDate| x.usecs()),
+    })
+}
+
 fn bin_decode(ty: Ty, b: &[u8]) -> Result<i64, String> {
     Ok(match ty {
         Ty::Date => bincode::deserialize::<Date>(b).map_err(|e| e.to_string())?.days() as i64,
@@ -76,6 +102,8 @@ fn raw_bytes(ty: Ty, raw: i64) -> Vec<u8> {
 /// serialize -> deserialize, both forms; the human-readable form must be the fixed layout and
 /// the binary form the raw count.
 fn round_trip(acc: &mut Acc, idx: u64, tv: &TV, toks: &[refmodel::picture::Tok]) {
+    // the additional decode paths are exercised on every 997th case of the big sweeps and on every pool value
+    let heavy = idx % 997 == 0 || HEAVY_ALL.with(|h| h.get());
     acc.t(4);
     acc.traces += 1;
     let want_text = render(toks, tv.ty, &tv.fields()).expect("layout applies");
@@ -87,6 +115,19 @@ fn round_trip(acc: &mut Acc, idx: u64, tv: &TV, toks: &[refmodel::picture::Tok])
         let back = json_decode(tv.ty, &js).map_err(|e| format!("json deserialize of {js}: {e}"))?;
         if back != tv.raw {
             return Err(format!("json round trip gave {back}"));
+        }
+        if heavy {
+            let others = json_decode_other_paths(tv.ty, &js)?;
+            if others != [tv.raw; 3] {
+                return Err(format!("from_value / from_reader / escaped-string decode gave {others:?}"));
+            }
+            // two values in one binary stream: the encoding must be self-delimiting at its documented width
+            let pair = with_value!(tv, v, bincode::serialize(&(v, v))).map_err(|e| format!("bincode serialize pair: {e}"))?;
+            let mut want = raw_bytes(tv.ty, tv.raw);
+            want.extend(raw_bytes(tv.ty, tv.raw));
+            if pair != want {
+                return Err(format!("binary form of a pair {pair:?} is not two raw counts"));
+            }
         }
         let bin = with_value!(tv, v, bincode::serialize(&v)).map_err(|e| format!("bincode serialize: {e}"))?;
         if bin != raw_bytes(tv.ty, tv.raw) {
@@ -153,12 +194,16 @@ pub fn run(ctx: &mut Ctx) {
     pool.extend(pool_dates(w, seed).into_iter().map(|u| TV { ty: Ty::Date, raw: u as i64 }));
     for m in (-2_136_000_000i64..=2_136_000_000).step_by(997 * 1000) { pool.push(TV { ty: Ty::IntervalYM, raw: m }); }
     for m in -2000i64..=2000 { pool.push(TV { ty: Ty::IntervalYM, raw: m }); }
+    for d in 0i64..=1100 { pool.push(TV { ty: Ty::IntervalDT, raw: d * US_DAY + 1 }); pool.push(TV { ty: Ty::IntervalDT, raw: -(d * US_DAY + US_DAY - 1) }); }
+    pool.extend(crate::c04::interval_width_values());
     for s in (-172_800i64..=172_800).step_by(37) { pool.push(TV { ty: Ty::IntervalDT, raw: s * US_SEC + if s < 0 { -999_999 } else { 1 } }); }
     let pool_r = &pool;
     ctx.sweep_each("pools_round_trip", "boundary pools of all six types, strided year-month intervals, seconds within +/-2 days (IntervalDT)", pool.len() as u64, 256, |idx, acc| {
         acc.states += 1;
         let tv = &pool_r[idx as usize];
+        HEAVY_ALL.with(|h| h.set(true));
         round_trip(acc, idx, tv, tk(tv.ty));
+        HEAVY_ALL.with(|h| h.set(false));
         acc.nontrivial += 1;
     });
 
